@@ -70,6 +70,8 @@ PINS = [
     'mesonbuild.backend.backends:Backend.generate_emptydir_install',
     'mesonbuild.backend.backends:Backend.generate_symlink_install',
     'mesonbuild.backend.backends:Backend.guess_install_tag',
+    'mesonbuild.interpreter.interpreter:Interpreter.func_install_headers',
+    'mesonbuild.interpreter.interpreter:Interpreter.install_data_impl',
 ]
 TRUSTED = [
     'POSIX kernel path resolution is the lexical key of the model as long as no intermediate component is a symlink '
@@ -636,6 +638,14 @@ def oracle_case(ctx: Ctx, spec: dict, R: str, res: dict) -> None:
     case = {'spec': spec}
     name = spec['name']
     drename = dangling_rename(spec, R, prev)
+    if name == 'corpus-overlap-only-changed' and len(res['steps']) == 2:
+        differs = res['steps'][0]['tree'] != res['steps'][1]['tree']
+        ctx.tag('observed:only-changed-overlap-' + ('differs' if differs else 'same'))
+        if differs:
+            ctx.violation('only-changed-overlapping-destinations-not-idempotent',
+                          'two rules with one destination: the --only-changed reinstall changes the tree', case)
+        if not differs:
+            ctx.notes.append('the recorded --only-changed/overlap non-idempotence no longer shows on the real installer')
     if res.get('escaped'):
         ctx.violation(KEY_DOTDOT if dotdot else f'outside-scratch:{name}', f'installer wrote to {res["escaped"]} (DESTDIR ignored)', case)
     for i, st in enumerate(res['steps']):
@@ -1033,6 +1043,13 @@ def corpus_cases() -> T.List[dict]:
     out.append({**base, 'name': 'corpus-dangling-rename-preserve', 'umask': 'preserve', 'tree': [['l', 'src/lnk', 'nonexistent']],
                 'data': [{'path': '{R}/src/lnk', 'ip': 'share/other', 'mode': None, 'sub': '', 'tag': None}],
                 'ops': [inst, {'op': 'uninstall'}]})
+    # two rules, one destination, first source newer: the Lean counterexample `only_changed_overlap_counterexample`
+    # replayed on the real installer (first install ends with B, the --only-changed reinstall with A)
+    out.append({**base, 'name': 'corpus-overlap-only-changed',
+                'tree': [['f', 'src/A', 0o644, 'A', t0 + 9], ['f', 'src/B', 0o644, 'B', t0 + 5]],
+                'data': [{'path': '{R}/src/A', 'ip': 'share/x', 'mode': None, 'sub': '', 'tag': None},
+                         {'path': '{R}/src/B', 'ip': 'share/x', 'mode': None, 'sub': '', 'tag': None}],
+                'ops': [inst, dict(inst, only=True)]})
     # a full clean layout
     out.append({**base, 'name': 'corpus-layout', 'clean': True,
                 'tree': [['f', 'src/a.h', 0o644, 'a', t0], ['f', 'src/tool', 0o755, 't', t0 + 1], ['f', 'src/m.1', 0o600, 'm', t0 + 2],
@@ -1179,6 +1196,13 @@ def unit_stream(ctx: Ctx) -> None:
     for cur in range(0, 0o1000, 7):
         for um in (0, 0o022, 0o077, 0o137, 0o777, 0o002, 0o027):
             lines.append(f'sanitized {cur}|{um}'); want.append(str((0o777 if cur & 0o111 else 0o666) & ~um))
+    # Python string primitives used by the backend glue
+    for _ in range(3000):
+        x = ''.join(rng.choice('ab.{}fr/mandir') for _ in range(rng.randint(0, 14)))
+        pat = rng.choice(['.fr', '{mandir}', '.', 'a.', 'aa', '.a'])
+        rep = rng.choice(['', '/usr/share/man', 'a', '.fr.'])
+        lines.append(f'replace {enc(pat)}|{enc(rep)}|{enc(x)}'); want.append(enc(x.replace(pat, rep)))
+        lines.append(f'lastfield {enc(x)}'); want.append(enc(x.split('.')[-1]))
     # selection
     opts_cls = argparse.Namespace
     for skip in SKIPS + ['a,,b', ',']:
